@@ -77,6 +77,19 @@ def gen_cases(rng, tier):
         a = rng.choice([Fraction(rng.randint(-500, 500), rng.choice([1, 2, 3, 100]))])
         ops.append(["q_conv", f"{_tok(a)}@{rng.choice(temps)}", rng.choice(temps), MODE])
     cases.append({"ops": ops, "fork": True, "tags": ["temperature"]})
+    # quantities produced by allocation in the quantised catalogue type convert,
+    # add and compare by the reference scales like any other quantity
+    dv = [sy for c, sy, k in ref if c == "DataVolume"]
+    ops = [["load_predefined"]]
+    for _ in range(12):
+        u = rng.choice(dv)
+        v = rng.choice([x for x in dv if x != u])
+        n = rng.randint(2, 7)
+        ratios = ",".join("n:%d/1" % rng.choice([1, 1, 1, 2, 3]) for _ in range(n))
+        x = Fraction(rng.randint(1, 400))
+        ops.append(["q_alloc_cmp", f"{rat(x)}@{u}", ratios, v,
+                    rng.choice(["ROUND_HALF_EVEN", "ROUND_FLOOR", "ROUND_CEILING"])])
+    cases.append({"ops": ops, "fork": True, "tags": ["allocated-portions"]})
     # SI prefixes by the name of their module-level constant
     cases.append({"ops": [["prefix", n] for n in PREFIX_EXP], "fork": False, "tags": ["prefixes"]})
     return cases
@@ -155,6 +168,9 @@ def oracle(case, impl):
             k = scale[sy]
             if f"cls={cls_of[sy]} " not in out or f"equiv={'none' if k is None else rat(k)} " not in out:
                 fails.append({"site": "cat:scale", "msg": f"{sy}: {out}, SI: {cls_of[sy]} {k}"})
+        elif o[0] == "q_alloc_cmp":
+            if out != "ok true":
+                fails.append({"site": "cat:allocated-portion", "msg": f"{o} -> {out}"})
         elif o[0] == "prefix":
             exp = f"ok {o[1].capitalize()} {PREFIX_ABBR[o[1]]} {rat(Fraction(10) ** PREFIX_EXP[o[1]])}"
             if out != exp:
